@@ -838,4 +838,158 @@ example (k : Nat) (kind : StreamKind) (isLazy : Bool) (rp : LoadRes)
     (by decide +kernel) (by decide +kernel) idx
   exact ⟨o1, out, h, h'⟩
 
+/-! #### the dynamic accessor on a truncated file
+
+What the model (= the code) does on a dynamic section whose data is not in the prefix: `generic_get_entry_dyn` sets
+`tag = DT_NULL; value = 0` and returns, so `get_entries_num()` counts ONE entry when the header promises at least one
+record (`sh_size / sh_entsize ≥ 1`, entry size ≥ `sizeof(ElfN_Dyn)`) and `get_entry(0, …)` returns true with
+`tag = DT_NULL, value = 0, str = ""` — the all-zero record DESIGN §6 (C17) speaks of; every other index is refused.
+With the zeroed header (`sh_entsize = 0`) the count is 0. -/
+
+open DynPrefix in
+/-- the accessor-level statement: `a` is a new dynamic accessor (count not cached) on a settled section that has no
+    data, or has C07's invariant with content `c`, and whose linked string section is absent (`tbl = none`), data-less,
+    or has C07's invariant with content `tbl` -/
+theorem dyn_acc_prefix (a : DynAcc) (c : Bytes) (tbl : Option Bytes) (hc : a.cache = 0) (hsec : Settled a.sec)
+    (hdata : ∀ d, a.sec.data = some d →
+      a.sec.Inv ∧ a.sec.content = c ∧ a.sec.cls = a.cfg.cls ∧ a.sec.entSize = BitVec.ofNat 64 (Spec.dynSize a.cfg.cls) ∧
+      ((a.str = none ∧ tbl = none) ∨
+        ∃ s, a.str = some s ∧ Settled s ∧ (s.data = none ∨ (s.Inv ∧ tbl = some s.content))))
+    (idx : BitVec 64) :
+    ∃ a1 n a2 r, a.entriesNum = .ok (a1, n) ∧ a.getEntry idx = .ok (a2, r) ∧
+      ((n.toNat = 0 ∧ r = .invalid) ∨
+       (n.toNat = 1 ∧ r = (if idx.toNat = 0 then .ok 0 0 [] else .invalid)) ∨
+       (n.toNat = Spec.dynCount (Spec.entriesOf a.cfg c) ∧
+         (C12.outOf r = Spec.dynGet (Spec.entriesOf a.cfg c) tbl idx.toNat ∨
+          C12.outOf r = Spec.dynGet (Spec.entriesOf a.cfg c) none idx.toNat))) := by
+  cases hd : a.sec.data with
+  | none =>
+    refine ⟨_, _, _, _, entriesNum_nodata a hsec hd hc, getEntry_nodata a hsec hd hc idx, ?_⟩
+    have hle := fabCount_le a
+    by_cases h0 : (fabCount a).toNat = 0
+    · left; exact ⟨h0, by rw [h0]; simp⟩
+    · right; left
+      have h1 : (fabCount a).toNat = 1 := by omega
+      refine ⟨h1, ?_⟩
+      rw [h1]
+      by_cases hi : idx.toNat = 0
+      · simp [hi]
+      · have : 1 ≤ idx.toNat := by omega
+        simp [hi, this]
+  | some d =>
+    obtain ⟨hinv, hcont, hcls, hent, hstr⟩ := hdata d hd
+    rcases hstr with ⟨hs, ht⟩ | ⟨s, hs, hset, hsd⟩
+    · have hG : C12.Good a c tbl := ⟨⟨hinv, hcont, hcls, hent, by rw [hs, ht]; trivial⟩, Or.inl hc⟩
+      obtain ⟨a1, n, hn, _, _, _, hnv⟩ := C12.entriesNum_ok a c tbl hG
+      obtain ⟨a2, r, hg, _, _, hout⟩ := C12.getEntry_ok a c tbl hG idx
+      exact ⟨a1, n, a2, r, hn, hg, Or.inr (Or.inr ⟨hnv, Or.inl hout⟩)⟩
+    · rcases hsd with hnd | ⟨sinv, ht⟩
+      · -- the linked section has no data: like no string section
+        have hG : C12.Good { a with str := none } c none :=
+          ⟨⟨hinv, hcont, hcls, hent, trivial⟩, Or.inl hc⟩
+        obtain ⟨a1, n, hn, _, _, _, hnv⟩ := C12.entriesNum_ok _ c none hG
+        obtain ⟨a2, r, hg, _, _, hout⟩ := C12.getEntry_ok _ c none hG idx
+        have e1 := (entriesNum_str a s hset hnd hs).1
+        have e2 := getEntry_str a s hset hnd hs idx
+        rw [hn] at e1
+        rw [hg] at e2
+        exact ⟨_, n, _, r, e1, e2, Or.inr (Or.inr ⟨hnv, Or.inr hout⟩)⟩
+      · have hG : C12.Good a c tbl := ⟨⟨hinv, hcont, hcls, hent, by rw [hs, ht]; exact ⟨sinv, rfl⟩⟩, Or.inl hc⟩
+        obtain ⟨a1, n, hn, _, _, _, hnv⟩ := C12.entriesNum_ok a c tbl hG
+        obtain ⟨a2, r, hg, _, _, hout⟩ := C12.getEntry_ok a c tbl hG idx
+        exact ⟨a1, n, a2, r, hn, hg, Or.inr (Or.inr ⟨hnv, Or.inl hout⟩)⟩
+
+theorem prefix_secResident_none (img : Bytes) (k : Nat) (o : Obj) (hP : PrefixLoadedC img k o) (j : Nat)
+    (hj : eh img "e_shnum" ≤ j) : secResident o j = none := by
+  unfold secResident
+  rw [List.getElem?_eq_none (by rw [hP.base.nsecs]; exact hj)]
+
+/-- **prefix_dynamic_sound** (C17 for `dynamic_section_accessor`): on a prefix of a well-formed image that loads, for
+    a dynamic section `i` with the class's entry size, the accessor answers, for EVERY 64-bit `k`, in exactly one of
+    these ways:
+    * `get_entries_num() = 0` and `get_entry(k)` refused — zeroed header, or no data and less than one record;
+    * `get_entries_num() = 1`, `get_entry(0)` = true with `tag = DT_NULL, value = 0, str = ""` and every other `k`
+      refused — the section's data is not in the prefix: the ONE fabricated all-zero record;
+    * the complete file's count (`Spec.dynCount` of the records decoded from the section's bytes of `img`:
+      `dynamic_reports_spec`) and, for `get_entry(k)`, the complete file's answer `Spec.dynGet … (linkedTable img i) k`
+      — or, when the data of the linked string table is not in the prefix, that answer with the string lookup failing
+      (`Spec.dynGet … none k`: string-valued tags come back false with the complete file's tag and value, the string
+      cleared; all other entries as in the complete file).
+    Never a record that differs from the complete file's, other than that single DT_NULL. -/
+theorem prefix_dynamic_sound (img : Bytes) (k : Nat) (o : Obj) (hP : PrefixLoadedC img k o) (i : Nat)
+    (hi : i < eh img "e_shnum") (hent : sh img i "sh_entsize" = Spec.dynSize (clsOf img)) (idx : BitVec 64) :
+    ∃ o2 n r, inspect o (.dynNum i) = .ok (o2, .num n) ∧ inspect o (.dyn i idx) = .ok (o2, .dyn r) ∧
+      PrefixLoadedC img k o2 ∧
+      ((n = 0 ∧ r = .invalid) ∨
+       (n = 1 ∧ r = (if idx.toNat = 0 then .ok 0 0 [] else .invalid)) ∨
+       (n = Spec.dynCount (specDynEntries img i) ∧
+         (C12.outOf r = Spec.dynGet (specDynEntries img i) (linkedTable img i) idx.toNat ∨
+          C12.outOf r = Spec.dynGet (specDynEntries img i) none idx.toNat))) := by
+  obtain ⟨o1, b1, h1, hP1, hR1, hLS1, hcls1, _⟩ := prefix_secResident_c img k o hP i hi
+  -- the accessor `dynSetup` builds
+  have hsetup : ∃ o2 str, dynSetup o i = some (o2, mkDyn o2 b1 str) ∧ PrefixLoadedC img k o2 ∧
+      (∀ d, b1.data = some d →
+        ((str = none ∧ linkedTable img i = none) ∨
+          ∃ s, str = some s ∧ Settled s ∧ (s.data = none ∨ (s.Inv ∧ linkedTable img i = some s.content)))) := by
+    unfold dynSetup
+    simp only [h1]
+    have hidx : ∀ d, b1.data = some d → dynStrIdx b1 = linkIdx img i := by
+      intro d hd
+      obtain ⟨hF, _⟩ := pready_inv hR1 hLS1 hd
+      unfold dynStrIdx linkIdx dyn_strtab_index
+      rw [← hF.link]
+      simp only [BitVec.toNat_setWidth, Nat.reducePow]
+    by_cases hj : dynStrIdx b1 < eh img "e_shnum"
+    · obtain ⟨o2, s, h2, hP2, hR2, hLS2, _, _⟩ := prefix_secResident_c img k o1 hP1 _ hj
+      refine ⟨o2, some s, by simp only [h2], hP2, ?_⟩
+      intro d hd
+      right
+      refine ⟨s, rfl, hR2.settled, ?_⟩
+      cases hsd : s.data with
+      | none => exact Or.inl rfl
+      | some ds =>
+        right
+        have hji := hidx d hd
+        rw [hji] at hR2 hj
+        obtain ⟨_, _, sinv, scont, _⟩ := pready_inv hR2 hLS2 hsd
+        exact ⟨sinv, by simp only [linkedTable, hj, if_true, scont]⟩
+    · have hnone := prefix_secResident_none img k o1 hP1 _ (Nat.le_of_not_lt hj)
+      refine ⟨o1, none, by simp only [hnone], hP1, ?_⟩
+      intro d hd
+      left
+      rw [hidx d hd] at hj
+      exact ⟨rfl, by simp only [linkedTable, hj, if_false]⟩
+  obtain ⟨o2, str, hs, hP2, hstr⟩ := hsetup
+  have hcfg : (mkDyn o2 b1 str).cfg = ⟨clsOf img, encOf img⟩ := by simp [mkDyn, hP2.base.cls, hP2.base.enc]
+  obtain ⟨a1, n, a2, r, hn, hg, hres⟩ := dyn_acc_prefix (mkDyn o2 b1 str) (secFileBytes img i) (linkedTable img i) rfl
+    hR1.settled (by
+      intro d hd
+      obtain ⟨hF, hocc, hinv, hcont, _⟩ := pready_inv hR1 hLS1 hd
+      refine ⟨hinv, hcont, by rw [hcfg]; exact hcls1, ?_, hstr d hd⟩
+      rw [hcfg]
+      exact ofNat_toNat64 _ _ (by show b1.entSize.toNat = Spec.dynSize (clsOf img); rw [hF.entSize, hent])) idx
+  rw [hcfg] at hres
+  refine ⟨o2, n.toNat, r, ?_, ?_, hP2, hres⟩
+  · simp only [inspect, hs, hn]; rfl
+  · simp only [inspect, hs, hg]; rfl
+
+example (k : Nat) (kind : StreamKind) (isLazy : Bool) (rp : LoadRes)
+    (hp : load {} { data := exImg.take k, kind := kind } isLazy = .ok rp) (hok : rp.ok = true) (idx : BitVec 64) :
+    ∃ o1 n r, inspect rp.obj (.dynNum 5) = .ok (o1, .num n) ∧ inspect rp.obj (.dyn 5 idx) = .ok (o1, .dyn r) ∧
+      ((n = 0 ∧ r = .invalid) ∨
+       (n = 1 ∧ r = (if idx.toNat = 0 then .ok 0 0 [] else .invalid)) ∨
+       (n = 3 ∧
+         (C12.outOf r = Spec.dynGet (specDynEntries exImg 5) (linkedTable exImg 5) idx.toNat ∨
+          C12.outOf r = Spec.dynGet (specDynEntries exImg 5) none idx.toNat))) := by
+  obtain ⟨o1, n, r, g1, g2, _, g3⟩ := prefix_dynamic_sound exImg k rp.obj
+    (prefixLoadedC_of_load exImg exImg_wf {} rfl k kind isLazy rp hp hok) 5 (by decide +kernel) (by decide +kernel) idx
+  have hc : Spec.dynCount (specDynEntries exImg 5) = 3 := by decide +kernel
+  rw [hc] at g3
+  exact ⟨o1, n, r, g1, g2, g3⟩
+/-- without the string table's data the DT_NEEDED entry of the example comes back false, tag and value intact -/
+example : Spec.dynGet (specDynEntries exImg 5) none 0 = .nostr 1 1 ∧
+    Spec.dynGet (specDynEntries exImg 5) (linkedTable exImg 5) 0 = .ok 1 1 [0x66, 0x6f, 0x6f] ∧
+    Spec.dynGet (specDynEntries exImg 5) none 2 = Spec.dynGet (specDynEntries exImg 5) (linkedTable exImg 5) 2 := by
+  decide +kernel
+
 end ElfioVerif.ComposeTables
